@@ -60,6 +60,24 @@ var c13Injections = []string{
 	"initial-wrong-scid-crypto",
 	"dup-earlier",     // duplicate of the first genuine server datagram
 	"corrupt-earlier", // corrupted copy of the first genuine server datagram
+	// Initial packets built with the connection's REAL connection IDs (all visible on the wire) and
+	// protected with the Initial keys in use (they follow from the destination connection ID of the
+	// client's first Initial, after a Retry from the Retry's source connection ID). RFC 9001 4.9.1:
+	// an endpoint that has discarded its Initial keys (client: when it first sends a Handshake
+	// packet; server: when it first processes one) cannot be affected by such a packet any more.
+	"initial-real-cids-close",         // server -> client, CONNECTION_CLOSE
+	"initial-real-cids-crypto",        // server -> client, garbage CRYPTO
+	"client-initial-real-cids-close",  // client -> server, CONNECTION_CLOSE
+	"client-initial-real-cids-crypto", // client -> server, garbage CRYPTO
+}
+
+// c13RealCIDKind: forged Initial packets that are well formed for the connection under attack;
+// c13ToServer: the ones addressed to the server.
+func c13RealCIDKind(n string) bool {
+	return n == "initial-real-cids-close" || n == "initial-real-cids-crypto" || c13ToServer(n)
+}
+func c13ToServer(n string) bool {
+	return n == "client-initial-real-cids-close" || n == "client-initial-real-cids-crypto"
 }
 
 func c13PairKind(n string) bool {
@@ -69,6 +87,18 @@ func c13PairKind(n string) bool {
 type c13Inject struct {
 	Kind int      `json:"kind"`
 	At   sim.Slot `json:"at"` // the forged packet is put on the wire when this datagram is sent
+	// Rel == "hs": At.Idx counts the datagrams of direction At.Dir from the moment the client's
+	// first Handshake packet leaves (C2S #0 = the datagram that carries it, S2C #0 = the first
+	// server datagram sent at or after that instant); "" = ordinal within the handshake.
+	Rel string `json:"rel,omitempty"`
+}
+
+func (in *c13Inject) String() string {
+	rel := ""
+	if in.Rel != "" {
+		rel = in.Rel + "+"
+	}
+	return fmt.Sprintf("%s@%v#%s%d", c13Injections[in.Kind], in.At.Dir, rel, in.At.Idx)
 }
 
 type c13Config struct {
@@ -83,10 +113,10 @@ type c13Config struct {
 func (c c13Config) String() string {
 	s := fmt.Sprintf("%s/%s faults=%v", c13Scenarios[c.Scenario], c.Kind, c.Faults)
 	if c.Inject != nil {
-		s += fmt.Sprintf(" inject=%s@%v#%d", c13Injections[c.Inject.Kind], c.Inject.At.Dir, c.Inject.At.Idx)
+		s += " inject=" + c.Inject.String()
 	}
 	if c.Inject2 != nil {
-		s += fmt.Sprintf(" inject2=%s@%v#%d", c13Injections[c.Inject2.Kind], c.Inject2.At.Dir, c.Inject2.At.Idx)
+		s += " inject2=" + c.Inject2.String()
 	}
 	return s
 }
@@ -104,6 +134,8 @@ type c13Result struct {
 	InjectedAt   time.Duration
 	InjectedAt2  time.Duration
 	GenuineAt    time.Duration // delivery time of the first intact genuine server datagram (-1: none)
+	ClientHSAt   time.Duration // instant at which the client's first Handshake packet left (-1: never): its Initial keys are gone
+	ServerHSAt   time.Duration // delivery time of the first intact genuine client datagram with a Handshake packet (-1: none): the server's Initial keys are gone
 	Datagrams    [2]int
 	Transcript   []string
 	fail         *explore.Fail
@@ -146,7 +178,7 @@ func c13State(c *quic.Conn) string {
 func c13Run(t *testing.T, cfg c13Config) c13Result {
 	var res c13Result
 	scen := c13Scenarios[cfg.Scenario]
-	res.GenuineAt = -1
+	res.GenuineAt, res.ClientHSAt, res.ServerHSAt = -1, -1, -1
 	ok := sim.Run(t, "run", cfg.Seed, func(t *testing.T) {
 		w := sim.NewWorld(nil)
 		ctx, cancel := context.WithTimeout(context.Background(), 3*time.Minute)
@@ -244,35 +276,74 @@ func c13Run(t *testing.T, cfg c13Config) c13Result {
 		phaseStart := time.Since(w.Router.StartTime())
 		var clientEP net.Addr
 		injected, injected2 := false, false
+		hsSeen := false
+		var relCount [2]int
+		arrival := func(ev sim.Event) time.Duration { // when the router hands this datagram over (first copy)
+			switch ev.Fate {
+			case sim.Delay:
+				return ev.T + sim.OneWay + 3*sim.OneWay
+			case sim.DelayLong:
+				return ev.T + sim.OneWay + 20*sim.OneWay
+			}
+			return ev.T + sim.OneWay
+		}
+		intact := func(ev sim.Event) bool {
+			return ev.Fate == sim.Deliver || ev.Fate == sim.Dup || ev.Fate == sim.Delay || ev.Fate == sim.DelayLong
+		}
+		// fire puts one forged packet on the wire, addressed to the client or to the server
+		fire := func(in *c13Inject, ev sim.Event, extra time.Duration) time.Duration {
+			kind := c13Injections[in.Kind]
+			pkt := c13Forge(w, kind)
+			if pkt == nil || clientEP == nil {
+				return 0
+			}
+			if c13ToServer(kind) {
+				w.Router.Inject(clientEP, w.ServerAddr, pkt, extra)
+			} else {
+				w.Router.Inject(w.ServerAddr, clientEP, pkt, extra)
+			}
+			return ev.T + sim.OneWay + extra
+		}
+		var hookMu sync.Mutex // the hook is called from the send loops of both endpoints
 		w.Router.OnSend = func(ev sim.Event) {
+			hookMu.Lock()
+			defer hookMu.Unlock()
 			if ev.Dir == sim.C2S && clientEP == nil {
 				clientEP = ev.From
 			}
-			if ev.Dir == sim.S2C && !ev.Injected && res.GenuineAt < 0 && c13Processable(ev.Data) && (ev.Fate == sim.Deliver || ev.Fate == sim.Dup || ev.Fate == sim.Delay || ev.Fate == sim.DelayLong) {
-				extra := time.Duration(0)
-				if ev.Fate == sim.Delay {
-					extra = 3 * sim.OneWay
-				} else if ev.Fate == sim.DelayLong {
-					extra = 20 * sim.OneWay
-				}
-				res.GenuineAt = ev.T + sim.OneWay + extra
+			if ev.Dir == sim.S2C && !ev.Injected && res.GenuineAt < 0 && c13Processable(ev.Data) && intact(ev) {
+				res.GenuineAt = arrival(ev)
 			}
 			if ev.Injected {
 				return
 			}
-			if cfg.Inject != nil && !injected && ev.Dir == cfg.Inject.At.Dir && ev.Idx == cfg.Inject.At.Idx {
-				injected = true
-				if pkt := c13Forge(w, c13Injections[cfg.Inject.Kind]); pkt != nil && clientEP != nil {
-					res.InjectedAt = ev.T + sim.OneWay + time.Microsecond
-					w.Router.Inject(w.ServerAddr, clientEP, pkt, time.Microsecond)
+			if ev.Dir == sim.C2S && c13HasHandshakePacket(ev.Data) {
+				if !hsSeen {
+					hsSeen = true
+					res.ClientHSAt = ev.T
+				}
+				if res.ServerHSAt < 0 && intact(ev) {
+					res.ServerHSAt = arrival(ev)
 				}
 			}
-			if cfg.Inject2 != nil && !injected2 && ev.Dir == cfg.Inject2.At.Dir && ev.Idx == cfg.Inject2.At.Idx {
-				injected2 = true
-				if pkt := c13Forge(w, c13Injections[cfg.Inject2.Kind]); pkt != nil && clientEP != nil {
-					res.InjectedAt2 = ev.T + sim.OneWay + 2*time.Microsecond
-					w.Router.Inject(w.ServerAddr, clientEP, pkt, 2*time.Microsecond)
+			rel := -1
+			if hsSeen {
+				rel = relCount[ev.Dir]
+				relCount[ev.Dir]++
+			}
+			at := func(in *c13Inject) bool {
+				if in.Rel == "hs" {
+					return ev.Dir == in.At.Dir && rel == in.At.Idx
 				}
+				return ev.Dir == in.At.Dir && ev.Idx == in.At.Idx
+			}
+			if cfg.Inject != nil && !injected && at(cfg.Inject) {
+				injected = true
+				res.InjectedAt = fire(cfg.Inject, ev, time.Microsecond)
+			}
+			if cfg.Inject2 != nil && !injected2 && at(cfg.Inject2) {
+				injected2 = true
+				res.InjectedAt2 = fire(cfg.Inject2, ev, 2*time.Microsecond)
 			}
 		}
 		t0 := time.Now()
@@ -455,6 +526,31 @@ func c13Forge(w *sim.World, kind string) []byte {
 		}
 		// (a packet number the genuine server has not used, or duplicate detection drops the forgery)
 		return wireobs.SealInitial(ci.Version, sk, ci.SCID, evilCID, nil, 77, payload, 1200)
+	case "initial-real-cids-close", "initial-real-cids-crypto", "client-initial-real-cids-close", "client-initial-real-cids-crypto":
+		ver, keyDCID, cliSCID, srvSCID := c13ObserveCIDs(log)
+		if keyDCID == nil {
+			return nil
+		}
+		ck, sk, err := wireobs.InitialKeys(ver, keyDCID)
+		if err != nil {
+			return nil
+		}
+		payload := wireobs.ConnectionCloseFrame(0x02, "forged") // CONNECTION_REFUSED
+		if kind == "initial-real-cids-crypto" || kind == "client-initial-real-cids-crypto" {
+			payload = wireobs.CryptoFrame(0, bytes.Repeat([]byte{0x02, 0x00, 0x00}, 40))
+		}
+		// (packet number 77: neither endpoint has used it, so duplicate detection does not hide the forgery)
+		if c13ToServer(kind) {
+			dcid := srvSCID
+			if dcid == nil {
+				dcid = keyDCID // no server packet seen yet: the connection is still addressed by the client's choice
+			}
+			return wireobs.SealInitial(ver, ck, dcid, cliSCID, nil, 77, payload, 1200)
+		}
+		if srvSCID == nil {
+			return nil // the server's connection ID is not known yet (initial-wrong-scid-* cover that phase)
+		}
+		return wireobs.SealInitial(ver, sk, cliSCID, srvSCID, nil, 77, payload, 1200)
 	case "dup-earlier":
 		return firstS2C
 	case "corrupt-earlier":
@@ -466,6 +562,63 @@ func c13Forge(w *sim.World, kind string) []byte {
 		return c
 	}
 	return nil
+}
+
+// c13HasHandshakePacket: the datagram contains a long header packet of type Handshake.
+func c13HasHandshakePacket(b []byte) bool {
+	pk, _, _ := wireobs.SplitDatagram(b)
+	for _, p := range pk {
+		if p.Type == 2 {
+			return true
+		}
+	}
+	return false
+}
+
+// c13ObserveCIDs reads, from the genuine datagrams an on-path observer has seen so far, what is
+// needed to build an Initial packet that is well formed for the connection attempt in progress:
+// the version, the connection ID the Initial keys derive from (the destination connection ID
+// of the client's first Initial; after a Retry or a Version Negotiation the one of the first
+// Initial of the new attempt), the client's source connection ID and the server's (nil while
+// no server packet of this attempt has been seen).
+func c13ObserveCIDs(log []sim.Event) (ver uint32, keyDCID, cliSCID, srvSCID []byte) {
+	withToken := false
+	for _, e := range log {
+		if e.Injected {
+			continue
+		}
+		pk, _, _ := wireobs.SplitDatagram(e.Data)
+		for _, p := range pk {
+			switch {
+			case e.Dir == sim.C2S && p.Type == 0:
+				if keyDCID == nil || p.Version != ver || (len(p.Token) > 0 && !withToken) {
+					ver, keyDCID, cliSCID, srvSCID = p.Version, p.DCID, p.SCID, nil
+					withToken = len(p.Token) > 0
+				}
+			case e.Dir == sim.S2C && p.Type != 3 && p.Version == ver && keyDCID != nil && srvSCID == nil:
+				srvSCID = p.SCID
+			}
+		}
+	}
+	return
+}
+
+// c13Regime classifies, for the vacuity accounting, where a well-formed forged Initial met its
+// receiver: while it still held the Initial keys or after it had discarded them.
+func c13Regime(cfg c13Config, r c13Result) string {
+	if cfg.Inject == nil || cfg.Inject2 != nil || r.InjectedAt <= 0 || !c13RealCIDKind(c13Injections[cfg.Inject.Kind]) {
+		return ""
+	}
+	if c13ToServer(c13Injections[cfg.Inject.Kind]) {
+		if r.ServerHSAt >= 0 && r.ServerHSAt < r.InjectedAt {
+			return " [well-formed Initial met a server without Initial keys]"
+		}
+		return " [well-formed Initial met a server holding Initial keys]"
+	}
+	if r.ClientHSAt >= 0 && r.ClientHSAt < r.InjectedAt {
+		return " [well-formed Initial met a client without Initial keys]"
+	}
+	return " [well-formed Initial met a client holding Initial keys]"
 }
 
 // c13Judge applies the oracle to one execution, given the execution without the forged packet.
@@ -534,6 +687,22 @@ func c13Judge(cfg c13Config, r, base c13Result) *explore.Fail {
 			if ik == "retry-bad-tag" || ik == "vn-with-our-version" || ik == "retry-wrong-odcid" || ik == "corrupt-earlier" || ik == "dup-earlier" {
 				return true, ik + " must always be ignored"
 			}
+			if c13RealCIDKind(ik) {
+				// A well-formed Initial is only demanded to be without effect once its receiver has
+				// discarded the Initial keys (RFC 9001 4.9.1): the client when its first Handshake
+				// packet left, the server when the first Handshake packet reached it. Before that an
+				// on-path attacker who knows the public Initial keys can end the attempt; not judged.
+				if c13ToServer(ik) {
+					if r.ServerHSAt >= 0 && r.ServerHSAt < at {
+						return true, fmt.Sprintf("%s reached the server at %v, after a genuine Handshake packet was delivered to it at %v (Initial keys discarded)", ik, at, r.ServerHSAt)
+					}
+					return false, ""
+				}
+				if r.ClientHSAt >= 0 && r.ClientHSAt < at {
+					return true, fmt.Sprintf("%s reached the client at %v, after the client sent its first Handshake packet at %v (Initial keys discarded)", ik, at, r.ClientHSAt)
+				}
+				return false, ""
+			}
 			if r.GenuineAt >= 0 && r.GenuineAt < at {
 				return true, fmt.Sprintf("%s arrived at %v, after a genuine server packet was delivered at %v", ik, at, r.GenuineAt)
 			}
@@ -581,7 +750,7 @@ func TestVerifC13(t *testing.T) {
 				rep := explore.RunCases(e, len(cfgs), 1, false, func(i int) explore.CaseResult {
 					explore.MarkCurrent(e, name, cfgs[i])
 					r, f := runOne(cfgs[i])
-					cr := explore.CaseResult{Outcome: c13Scenarios[cfgs[i].Scenario] + " " + r.outcome(), Execs: 1, Trans: int64(r.Datagrams[0] + r.Datagrams[1]), Replay: cfgs[i]}
+					cr := explore.CaseResult{Outcome: c13Scenarios[cfgs[i].Scenario] + " " + r.outcome() + c13Regime(cfgs[i], r), Execs: 1, Trans: int64(r.Datagrams[0] + r.Datagrams[1]), Replay: cfgs[i]}
 					if f != nil {
 						cr.Fail = f
 						cr.Human = append([]string{cfgs[i].String()}, r.Transcript...)
@@ -646,18 +815,32 @@ func TestVerifC13(t *testing.T) {
 						if iname == "retry-replay" && !c13UsesRetry(c13Scenarios[si]) {
 							continue
 						}
+						// injection points: the first 5 datagrams of either direction; for the well-formed
+						// Initials also the datagrams from the client's first Handshake packet on (the
+						// instant the client discards its Initial keys; the server does on receiving it)
+						var points []c13Inject
 						for d := sim.C2S; d <= sim.S2C; d++ {
 							for idx := 0; idx < 5; idx++ {
-								base := c13Config{Scenario: si, Kind: k, Seed: uint64(e.Seed) + 21, Inject: &c13Inject{Kind: ik, At: sim.Slot{Dir: d, Idx: idx}}}
-								cfgs = append(cfgs, base)
-								if e.Thorough() || (si <= 1 && k == "plain") {
-									// one fault in addition to the forged packet
-									for _, m := range sim.AllFaultMaps([2]int{3, 3}, few, 1) {
-										if len(m) == 1 {
-											c := base
-											c.Faults = m
-											cfgs = append(cfgs, c)
-										}
+								points = append(points, c13Inject{Kind: ik, At: sim.Slot{Dir: d, Idx: idx}})
+							}
+						}
+						if c13RealCIDKind(iname) {
+							for d := sim.C2S; d <= sim.S2C; d++ {
+								for idx := 0; idx < 3; idx++ {
+									points = append(points, c13Inject{Kind: ik, At: sim.Slot{Dir: d, Idx: idx}, Rel: "hs"})
+								}
+							}
+						}
+						for pi := range points {
+							base := c13Config{Scenario: si, Kind: k, Seed: uint64(e.Seed) + 21, Inject: &points[pi]}
+							cfgs = append(cfgs, base)
+							if e.Thorough() || (si <= 1 && k == "plain") {
+								// one fault in addition to the forged packet
+								for _, m := range sim.AllFaultMaps([2]int{3, 3}, few, 1) {
+									if len(m) == 1 {
+										c := base
+										c.Faults = m
+										cfgs = append(cfgs, c)
 									}
 								}
 							}
@@ -698,7 +881,7 @@ func TestVerifC13(t *testing.T) {
 					}
 				}
 			}
-			return cfgs, fmt.Sprintf("every scenario x client kind x %d forged-packet kinds (Version Negotiation with/without the version in use, Retry with invalid tag / valid tag / tag over a wrong original DCID / replayed genuine Retry, Initial with a foreign source connection ID carrying CONNECTION_CLOSE or CRYPTO and protected with the public Initial keys, duplicate and corrupted copy of a genuine server datagram) x injection point = each of the first 5 datagrams of either direction, alone and combined with 1 fault from {drop,dup,delay} on the first 3 datagrams; two forged packets per execution: ordered pairs of kinds x unordered pairs of injection points (quick: plain client, scenarios plain/retry/vn, kinds {Version Negotiation, Retry with valid tag, forged Initial with CONNECTION_CLOSE}, first 3 server datagrams; thorough: everything)", len(c13Injections))
+			return cfgs, fmt.Sprintf("every scenario x client kind x %d forged-packet kinds (Version Negotiation with/without the version in use, Retry with invalid tag / valid tag / tag over a wrong original DCID / replayed genuine Retry, Initial with a foreign source connection ID carrying CONNECTION_CLOSE or CRYPTO and protected with the public Initial keys, duplicate and corrupted copy of a genuine server datagram, Initial with the connection's real connection IDs and the Initial keys in use carrying CONNECTION_CLOSE or CRYPTO, addressed to the client or to the server) x injection point = each of the first 5 datagrams of either direction (well-formed Initials: also each of the first 3 datagrams of either direction counted from the datagram that carries the client's first Handshake packet), alone and combined with 1 fault from {drop,dup,delay} on the first 3 datagrams; two forged packets per execution: ordered pairs of kinds x unordered pairs of injection points (quick: plain client, scenarios plain/retry/vn, kinds {Version Negotiation, Retry with valid tag, forged Initial with CONNECTION_CLOSE}, first 3 server datagrams; thorough: everything)", len(c13Injections))
 		}),
 	}
 	explore.Main("C13", parts, func(msg string) { t.Fatal(msg) })
